@@ -184,7 +184,16 @@ def sanitize(module, snap=None, roundtrip=True, failure_path=False,
             others = [x for x in order if x is not b]
             # (neighbours: the nearest blocks that have bytes; several
             # zero-sized blocks at one place have no order among themselves)
-            nxt = next((x for x in order[k + 1:] if x.size), None)
+            def padding(x):
+                # alignment padding put in front of the next aligned block
+                # takes the kind of the zero-sized block in front of it
+                return snap is not None and id(x) not in snap.blocks and \
+                    isinstance(x, gtirb.CodeBlock) and \
+                    not any(True for _ in x.references) and \
+                    not any(True for _ in x.incoming_edges) and \
+                    not any(True for _ in x.outgoing_edges)
+            nxt = next((x for x in order[k + 1:]
+                        if x.size and not padding(x)), None)
             prv = next((x for x in reversed(order[:k]) if x.size), None)
             reasons = []
             if any(True for _ in b.references) and not others:
